@@ -9,6 +9,8 @@
 #include "contact_node_node_via_coupling.hpp"
 #include "contact_node_face_via_spring.hpp"
 #include "contact_face_face_via_coupling.hpp"
+#include "cell_divider.hpp"
+#include "local_mesh_refiner.hpp"
 #include <omp.h>
 #include <unordered_set>
 
@@ -111,6 +113,8 @@ static bool pregate_pair(const node& n, const face& f) {
 #endif
 }
 
+static uint64_t g_div_seed = 0;
+static uint64_t div_rng(int site, uint64_t ctx) { return hash_combine(hash_combine(g_div_seed, (uint64_t)site + 31), ctx); }
 struct FI { V3 a, b, c, ctr; R rad; const face* f; };
 struct Brute { long within = 0, missing = 0, gated_out = 0; std::string msg; std::vector<std::vector<char>> reach; std::vector<std::vector<FI>> F; };
 // every cross-cell (node, face) pair closer than the largest cut-off (minus the grey zone) that passes the model's own pre-gates must be in P
@@ -234,10 +238,41 @@ static std::string tissue_case(const Args& a, long i) {
             if (b2.missing) c.viol("c06.pair_within_cutoff_not_presented:model_object_reused", b2.msg + " (" + std::to_string(b2.missing) + " such pairs) in the second evaluation made with the same contact model object on a re-oriented tissue");
         }
     }
+    // ---- a tissue whose cells come out of the repository's own division code (two rounds of cell_divider::run on the epithelial cells: the ids
+    //      and list positions are the divider's): the daughters touch along their interfaces, every pair in range must be presented
+    long div_within = 0, div_cells = 0;
+    if (c.v != "viol" && a.geti("divide", 1) != 0 && t.meshes.size() <= 4 && g.coin(0.35)) {
+        bool any_epi = false; for (int cl : t.cls) if (cl == 0) any_epi = true;
+        if (any_epi) {
+            g_div_seed = hash_combine(a.seed, (uint64_t)i); verif::get().rng_seed = div_rng;
+            std::vector<cell_type_param_ptr> keep; std::vector<cell_ptr> D;
+            try { D = build(t, &keep); for (auto& tp : keep) { tp->avg_division_vol_ = 0; tp->std_division_vol_ = 0; } for (auto& cp : D) cp->initialize_random_properties();
+                double me = 0; long ne = 0; for (auto& m : t.meshes) { me += gen::mean_edge(m); ne++; } me /= (double)ne; const double lm = me / 1.8; local_mesh_refiner lmr(lm, 3 * lm, false);
+                unsigned max_id = (unsigned)D.size(); omp_set_num_threads(1);
+                for (int round = 0; round < 2 && D.size() <= 10; round++) { for (auto& cp : D) cp->apply_internal_forces(0.0); cell_divider::run(D, lm, lmr, max_id, false); }
+                for (auto& cp : D) { cp->apply_internal_forces(0.0); for (node& n : cell_tester::nodes(*cp)) if (n.is_used()) { n.set_force(vec3(0, 0, 0));
+#if DYNAMIC_MODEL_INDEX == 0
+                        n.set_momentum(vec3(0, 0, 0));
+#endif
+                    } }
+            } catch (const std::exception&) { D.clear(); }
+            verif::get().rng_seed = nullptr;
+            if (D.size() > t.meshes.size()) { div_cells = (long)D.size();
+                Tissue t3 = t; t3.cls.clear(); for (auto& cp : D) t3.cls.push_back((int)cp->get_cell_type_id());
+                std::vector<std::vector<V3>> X3(D.size()); for (size_t k = 0; k < D.size(); k++) for (const node& n : cell_tester::nodes(*D[k])) X3[k].push_back(vpos(n));
+                for (auto& v : g_pairs) v.clear(); verif::get().contact_pair = on_pair; omp_set_num_threads(a.threads); model_t md(t.P); md.run(D); verif::get().contact_pair = nullptr;
+                std::map<const cell*, uint32_t> cidx3; for (size_t k = 0; k < D.size(); k++) cidx3[D[k].get()] = (uint32_t)k;
+                std::unordered_set<PairKey, PairHash> P3; for (auto& v : g_pairs) for (auto& p : v) { const cell* c1 = (const cell*)p[0]; const cell* c2 = (const cell*)p[2]; const node* n = (const node*)p[1]; const face* f = (const face*)p[3]; P3.insert({cidx3[c1], n->get_local_id(), cidx3[c2], f->get_local_id()}); }
+                Brute b3 = brute(D, X3, P3, t3, cmax, GZ); div_within = b3.within;
+                std::set<unsigned> ids; bool dup = false; for (auto& cp : D) if (!ids.insert(cp->get_id()).second) dup = true;
+                if (b3.missing) c.viol("c06.pair_within_cutoff_not_presented:after_divisions", b3.msg + " (" + std::to_string(b3.missing) + " such pairs) in a tissue of " + std::to_string(D.size()) + " cells produced by two rounds of cell_divider::run" + (dup ? " (two cells carry the same id)" : ""));
+            }
+        }
+    }
     { long freeslots = 0; for (size_t k = 0; k + 1 < A.size(); k++) for (const face& f : cell_tester::faces(*A[k])) if (!f.is_used()) freeslots++; if (freeslots) c.obs.i("unused_face_slots_before_last_cell", freeslots); }
     c.nontrivial = within > 0; c.sig = hash_combine(hash_combine((uint64_t)within, (uint64_t)presented), hash_combine((uint64_t)forced, hash_double((double)sabs)));
     c.obs.s("family", t.family).i("cells", (long)A.size()).i("pairs_within_cutoff", within).i("pairs_gated_out", gated_out).i("pairs_presented", (long)presented).i("nodes_with_force", forced).i("couplings", couplings).b("all_pairs_comparison", didB).d("all_pairs_maxdiff_over_fmax", fmax > 0 ? (double)(maxdiff / fmax) : 0.0)
-        .i("repeats", repeats_done).b("model_reused", did_reuse).i("reuse_pairs_within_cutoff", reuse_within).b("second_phase", did_phase2).i("second_phase_couplings", phase2_couplings).d("net_over_sumabs", sabs > 0 ? (double)(sum.norm() / sabs) : 0.0).d("lmin", t.P.min_edge_len_).d("cutoff_adh", t.P.contact_cutoff_adhesion_).d("cutoff_rep", t.P.contact_cutoff_repulsion_).d("offset", t.offset).b("epi_epi", t.has_epi_epi).i("threads", a.threads);
+        .i("repeats", repeats_done).i("cells_after_divisions", div_cells).i("division_pairs_within_cutoff", div_within).b("model_reused", did_reuse).i("reuse_pairs_within_cutoff", reuse_within).b("second_phase", did_phase2).i("second_phase_couplings", phase2_couplings).d("net_over_sumabs", sabs > 0 ? (double)(sum.norm() / sabs) : 0.0).d("lmin", t.P.min_edge_len_).d("cutoff_adh", t.P.contact_cutoff_adhesion_).d("cutoff_rep", t.P.contact_cutoff_repulsion_).d("offset", t.offset).b("epi_epi", t.has_epi_epi).i("threads", a.threads);
     return c.line();
 }
 
@@ -308,7 +343,7 @@ static int cmd_contact(const Args& a) {
         auto str = [&](const std::string& k) -> std::string { size_t p = L.find("\"" + k + "\":\""); if (p == std::string::npos) return ""; size_t s0 = p + k.size() + 4; return L.substr(s0, L.find('"', s0) - s0); };
         auto flag = [&](const std::string& k) -> bool { size_t p = L.find("\"" + k + "\":"); return p != std::string::npos && L.compare(p + k.size() + 3, 4, "true") == 0; };
         if (L.find("\"v\":\"skip\"") != std::string::npos) { agg.skipped++; continue; }
-        if (mode == "tissue") { for (const char* k : {"pairs_within_cutoff", "pairs_gated_out", "pairs_presented", "nodes_with_force", "couplings"}) agg.bin(k, num(k)); agg.bin("family:" + str("family")); agg.bin("repeated_runs", num("repeats")); if (flag("second_phase")) agg.bin("second_phase_histories"); if (flag("all_pairs_comparison")) agg.bin("all_pairs_comparisons"); if (flag("epi_epi")) agg.bin("tissues_with_epithelial_pairs"); if (num("cells") == 1) agg.bin("single_cell_tissues"); if (num("unused_face_slots_before_last_cell") > 0) agg.bin("tissues_with_unused_slots_before_last_cell"); if (flag("model_reused")) agg.bin("model_object_reused");
+        if (mode == "tissue") { for (const char* k : {"pairs_within_cutoff", "pairs_gated_out", "pairs_presented", "nodes_with_force", "couplings"}) agg.bin(k, num(k)); agg.bin("family:" + str("family")); agg.bin("repeated_runs", num("repeats")); if (flag("second_phase")) agg.bin("second_phase_histories"); if (flag("all_pairs_comparison")) agg.bin("all_pairs_comparisons"); if (flag("epi_epi")) agg.bin("tissues_with_epithelial_pairs"); if (num("cells") == 1) agg.bin("single_cell_tissues"); if (num("unused_face_slots_before_last_cell") > 0) agg.bin("tissues_with_unused_slots_before_last_cell"); if (flag("model_reused")) agg.bin("model_object_reused"); if (num("cells_after_divisions") > 0) { agg.bin("tissues_produced_by_divisions"); agg.bin("division_pairs_within_cutoff", num("division_pairs_within_cutoff")); }
             size_t p = L.find("\"all_pairs_maxdiff_over_fmax\":"); if (p != std::string::npos) agg.maxi("all_pairs_maxdiff_over_fmax", atof(L.c_str() + p + 30)); p = L.find("\"net_over_sumabs\":"); if (p != std::string::npos) agg.maxi("net_force_over_sumabs", atof(L.c_str() + p + 18)); }
         else { agg.bin("pair:" + str("pair")); if (flag("forbidden_side")) agg.bin("forbidden_side_cases"); if (flag("coupled")) agg.bin("coupled_cases"); agg.bin("region:" + std::to_string(num("region"))); }
         if (flag("nt")) { agg.nontrivial++; size_t p = L.find("\"sig\":\""); if (p != std::string::npos) agg.sigs[strtoull(L.substr(p + 7, 16).c_str(), nullptr, 16)] = 1; if (mode != "tissue") agg.bin("pair_with_force_or_coupling:" + str("pair")); }
